@@ -12,6 +12,7 @@ C05 — property theorems about the signer model (`Model/Sign.lean`).
 * `C05_lowS_preserves_verify_partial`;
 * `C05_p2pkh_valid`, `C05_p2pk_valid`, `C05_p2wpkh_valid`, `C05_p2sh_p2wpkh_valid` (+ `_signed_valid` forms): `VerifyScript` of
   `Spec/Consensus.lean` accepts the solutions, for every flag set under which signature and key pass the encoding rules;
+* `C05_multisig_valid_partial`: the CHECKMULTISIG matching loop accepts signatures laid out in key order (any `m ≤ n`);
 * `C05_partial_order_independent_partial`, `C05_partial_placeholders`, `C05_placeholder_invalid_partial`: partial multisig
   signing;
 * `C05_sign_frame`, `C05_sign_frame_empty`: nothing but script and witness of the chosen, not yet valid inputs changes.
@@ -391,6 +392,24 @@ def standardFlags : Flags := Flags.ofBits 0xFFFF
 
 example : standardFlags.strictenc = true ∧ standardFlags.lowS = true ∧ standardFlags.cleanstack = true ∧
     standardFlags.witness = true ∧ standardFlags.p2sh = true ∧ standardFlags.nullfail = true := by decide
+
+/-- **m-of-n multisig (partial).**  The signature/key matching loop of `OP_CHECKMULTISIG` in the consensus specification
+accepts, for every `m ≤ n` (no bound on `n` is needed here), signatures that pass the encoding rules and verify for a
+subsequence of the keys — which is how the solver lays them out: `sig_list` is filled in increasing index of `sec_list`, the
+keys top of stack first (`solveBase`, `sortSigs`).  Induction over the keys.
+Not carried (hence `_partial`): the instruction-level evaluation around the loop (the `n + m + 3` pushes, op count, NULLDUMMY
+on the leading `OP_0`, CLEANSTACK) and the P2SH / P2WSH wrappers for symbolic `m, n`; these are exercised on the implementation
+for all `1 ≤ m ≤ n ≤ 20` within the script-size limits by the harness, with the result validated under the standard flags. -/
+theorem C05_multisig_valid_partial (chk : PChk) (flags : Flags) (sv : SigVersion) (code : Bytes) (keys sigs : List Bytes)
+    (hemb : Embeds chk code sv sigs keys)
+    (hs : ∀ s ∈ sigs, checkSignatureEncoding s flags = none) (hk : ∀ k ∈ keys, checkPubKeyEncoding k flags sv = none) :
+    multisigLoop (m := Id) (liftChk chk) flags sv code sigs keys = .ok true :=
+  multisigLoop_accepts chk flags sv code keys sigs hemb hs hk
+
+/-- the hypotheses are satisfiable: a 2-of-3 layout where the signatures verify for keys 1 and 3 (top first) -/
+example (chk : PChk) (code s1 s3 k1 k2 k3 : Bytes) (h1 : chk s1 k1 code .base = true) (h3 : chk s3 k3 code .base = true) :
+    Embeds chk code .base [s1, s3] [k1, k2, k3] :=
+  .take h1 (.skip (.take h3 (.nil _)))
 
 /-! ## partial signing -/
 
